@@ -21,3 +21,18 @@ def not_a_recurrence(xyz, pid):
     for i in range(1, len(pid)):
         seg[i] = np.linalg.norm(xyz[i] - xyz[pid[i]])  # reads another array at the parent: fine
     return seg
+
+
+def keep_backward(types, pid, wanted):
+    keep = types == wanted
+    for i in range(len(keep) - 1, 0, -1):
+        if keep[i]:
+            keep[pid[i]] = True  # pushes the flag up one level per row: complete only for sorted numbering
+    return keep
+
+
+def count_children(pid):
+    n_children = np.zeros(len(pid), dtype=int)
+    for i in range(1, len(pid)):
+        n_children[pid[i]] += 1  # writes the parent's slot, reads nothing of its own: order free
+    return n_children
